@@ -201,6 +201,8 @@ def run_rebuild(case):
                     break
         if case.get("nested_search"):     # the same directory is reachable through two search arguments
             sdirs = sdirs + [os.path.join(sdirs[0], d) for d in sorted(os.listdir(sdirs[0]))[:1]]
+        os.symlink(os.path.join(sbx, "dest"), os.path.join(sbx, "destlink"))
+        os.symlink(sdirs[0], os.path.join(sbx, "searchlink"))
         before = snapshot(sbx)
         # 4. run
         cwd0 = os.getcwd()
@@ -225,12 +227,22 @@ def run_rebuild(case):
                     marg = [os.path.abspath(os.path.join(sbx, m)) if not os.path.isabs(m) else m for m in marg]
                     sdirs = [os.path.abspath(os.path.join(sbx, d)) if not os.path.isabs(d) else d for d in sdirs]
                     dest = case["dest_dot"]
+                # the destination / a search directory named through a symbolic link or with a ".." element
+                dest_arg, sarg = dest, list(sdirs)
+                sp = case.get("dest_spelling")
+                if sp and not case.get("dest_dot"):
+                    base = os.path.dirname(dest)
+                    dest_arg = os.path.join(base, "destlink") if sp == "symlink" else os.path.join(base, "metas", "..", "dest")
+                if case.get("search_spelling") and not case.get("file_arg") and not case.get("nested_search"):
+                    base = os.path.dirname(sarg[0])
+                    sarg[0] = (os.path.join(base, "searchlink") if case["search_spelling"] == "symlink"
+                               else os.path.join(base, "dest", "..", os.path.basename(sarg[0])))
                 for _ in range(runs):
                     if case.get("route") == "cli":
                         from torrentfile.cli import execute
-                        rec["count"] = execute(["rebuild", "-m"] + marg + ["-c"] + sdirs + ["-d", dest])
+                        rec["count"] = execute(["rebuild", "-m"] + marg + ["-c"] + sarg + ["-d", dest_arg])
                     else:
-                        asm = Assembler(marg, sdirs, dest)
+                        asm = Assembler(marg, sarg, dest_arg)
                         rec["count"] = asm.assemble_torrents()
         except SystemExit as ex:
             rec["status"] = "exit:%s" % ex.code
